@@ -123,7 +123,8 @@ DOUBLE_CHECK = False
 
 
 def _work(job):
-    idx, text, t_z3, t_cvc5, small = job
+    idx, text, t_z3, t_cvc5, small = job[:5]
+    qf = job[5] if len(job) > 5 else None
     try:
         dt0 = 0.0
         if small is not None:
@@ -166,6 +167,13 @@ def _work(job):
                 why = "z3 unknown (%s); cvc5 says sat" % why
             else:
                 why = "z3 unknown (%s); cvc5 unknown %s" % (why, err)
+        if r == "unknown" and qf is not None:
+            # Neither solver decided the full (quantified) query.  A model of its quantifier-free part is NOT a counter-model of the obligation, but it is a
+            # concrete candidate input: it is handed to the native replay, and only a failure of the REAL code on it is ever reported.
+            r3, dt3, model3, _ = _check_z3(qf, 4000)
+            dt += dt3
+            if r3 == "sat":
+                return idx, "candidate", backend, dt, model3, why
         return idx, r, backend, dt, model, why
     except Exception as e:  # engine problem: undecided, never a verdict
         return idx, "error", "z3", 0.0, None, "%s: %s" % (type(e).__name__, e)
@@ -191,7 +199,12 @@ def discharge(obligations, t_z3_ms=20000, t_cvc5_s=30, procs=None, nosplit=False
                     if t in ("path", "input", "goal-antecedent") or any(t.startswith(u) or u in t for u in uses) or not _has_quant(x):
                         keep.append(x)
                 small = to_smt2(keep, g)
-            jobs.append((len(jobs), to_smt2(h, g), t_z3_ms, t_cvc5_s, small))
+            qf = None
+            if not _has_quant(g):
+                qfh = [x for x in h if not _has_quant(x)]
+                if len(qfh) < len(h):
+                    qf = to_smt2(qfh, g)
+            jobs.append((len(jobs), to_smt2(h, g), t_z3_ms, t_cvc5_s, small, qf))
             meta.append(ob)
     procs = procs or min(16, max(1, os.cpu_count() or 1))
     results = []
@@ -227,5 +240,8 @@ def discharge(obligations, t_z3_ms=20000, t_cvc5_s=30, procs=None, nosplit=False
         else:
             if a["status"] == "discharged":
                 a["status"] = "undecided"
-                a["reason"] = "%s: %s" % (r, why)
+                a["reason"] = "%s: %s" % ("unknown" if r == "candidate" else r, why)
+            if r == "candidate" and a["status"] == "undecided" and not a.get("candidate_model"):
+                a["candidate_model"] = model
+                a["solver_output"] = "unknown (z3, cvc5); candidate input from a model of the quantifier-free part; goal: %s" % str(ob.goal)[:600]
     return agg
